@@ -15,11 +15,12 @@ import sys
 import time
 
 VERIF = os.path.dirname(os.path.dirname(os.path.abspath(__file__)))
-REPO = "/repo"
+# the overrides exist only for self-tests against a mutated scratch worktree (bin/mk-scratch); registered commands never set them
+REPO = os.environ.get("VERIF_REPO", "/repo")
 SPEC = os.path.join(VERIF, "spec")
-HARNESS = os.path.join(VERIF, "harness")
-WORK = os.path.join(VERIF, "work")
-EVIDENCE = os.path.join(VERIF, "evidence")
+HARNESS = os.environ.get("VERIF_HARNESS", os.path.join(VERIF, "harness"))
+WORK = os.environ.get("VERIF_WORK", os.path.join(VERIF, "work"))
+EVIDENCE = os.environ.get("VERIF_EVIDENCE", os.path.join(VERIF, "evidence"))
 JARS = "/opt/veriftools/tla/tla2tools.jar:/opt/veriftools/tla/CommunityModules-deps.jar"
 NCPU = os.cpu_count() or 4
 
@@ -137,7 +138,7 @@ def load_known_findings(pid):
     if os.path.exists(p):
         for line in open(p):
             line = line.strip()
-            if not line or line.startswith("#"):
+            if not line or line.startswith("#") or line.startswith("fixed:"):
                 continue
             e = json.loads(line)
             if e.get("property") == pid and e.get("status") == "open":
@@ -186,7 +187,7 @@ def sync_lockfile():
 def build_harness(binname):
     """(re)build one driver binary against /repo's CURRENT working tree (path dependency), hooks on"""
     sync_lockfile()
-    env = {"CARGO_NET_OFFLINE": "true"}
+    env = {"CARGO_NET_OFFLINE": "true", "VERIF_REPO": REPO}
     p = run(["cargo", "build", "--offline", "--bin", binname], cwd=HARNESS, env=env, timeout=1800, check=False)
     if p.returncode != 0:
         raise ToolError("harness build failed (does /repo compile?):\n" + (p.stdout or "")[-6000:])
